@@ -14,7 +14,7 @@ MC_BaseCalls == <<
   >>
 MC_AllNames == {<<"s">>, <<"t">>, <<"x", 0>>, <<"x", 1>>, <<"x", 2>>}
 MC_En == {"SBin", "SBinLit", "SNeg", "Fn", "VFn", "Index", "VBin", "VBinLit", "VNeg", "Sum", "Dot", "LinComb", "Norm"}
-MC_ScalarLits == {LitS("int", Q(2, 1)), LitS("float", Q(1, 2)), LitS("int", Q(-1, 1)), LitS("int", Q(0, 1))}
+MC_ScalarLits == {LitS("int", Q(2, 1)), LitS("float", Q(1, 2)), LitS("int", Q(-1, 1)), LitS("int", Q(0, 1)), LitS("tiny", Q(3, 1))}
 MC_ArrayLits == {Lit("arr", <<Q(1,1), Q(-2,1), Q(3,1)>>, <<3>>), Lit("arr", <<Q(2,1), Q(5,1)>>, <<2>>)}
 MC_Slices == {}
 MC_Indices == {0, -1}
@@ -24,6 +24,7 @@ MC_ScalarLitsSmall == {LitS("int", Q(2, 1)), LitS("float", Q(1, 2))}
 MC_SOps == {"+", "-", "*", "/", "**"}
 MC_VOps == {"+", "-", "*", "/", "**"}
 MC_Senses == {}
+MC_ObjCands == {}
 MC_Stages == <<>>
 MC_FinalEn == {}
 MC_SingValues == {}
